@@ -251,7 +251,7 @@ struct CurOp {                 // context of the op currently executing in a tas
     int os_calls = 0; int os_extra = 0; long req_emitted = -1; uint64_t req_snap[4]; int req_nsnap = 0;
     uint8_t os_last_ok[32]; bool os_have_ok = false;   // the last 32 bytes the OS delivered in the current request
     uint64_t os_stream_pos = 0, os_delivered = 0;
-    int fds_open = 0; int fd_next = 0; int opens = 0, closes = 0; int fds[16]; int nfds = 0;
+    int fds_open = 0; int fd_next = 0; int opens = 0, closes = 0; int fds[16]; int nfds = 0; int closed[8]; int nclosed = 0;
     bool in_call = false;      // a library call is on this task's stack
     int entry_errno = 0;       // errno value installed at every library entry of this op (plan data)
     uint64_t op_events = 0, op_budget = ~0ULL; // yield points seen during this op / budget derived from its arguments
